@@ -14,6 +14,8 @@ BUDGET = {'quick': 90, 'thorough': 1200}
 N = {'quick': 1200, 'thorough': 15000}
 FAMILIES = []
 selftest = opcommon.selftest_birds
+HARD_TIMEOUT = 400
+SOFT_TIMEOUT = 300
 
 
 def cases(tier, seed):
